@@ -360,7 +360,7 @@ def work(item):
 
 def all_items():
     items = []
-    n = tier(2, 3)
+    n = tier(2, 5)
     for cplx in (False, True):
         for mode, vals in (("power", ["sym", 0.01, 100.0]), ("snr", tier([-20.0, 10.0], [-20.0, 0.0, 10.0, 40.0]))):
             for v in vals:
@@ -397,7 +397,7 @@ def main():
     from kaira.metrics.signal.snr import SignalToNoiseRatio
     ck.encoded(A._apply_noise, A.AWGNChannel.forward, A.LaplacianChannel.forward, A.LaplacianChannel._get_laplacian_noise, U.snr_to_noise_power, U.snr_db_to_linear, U.snr_linear_to_db,
                U.noise_power_to_snr, U.calculate_snr, U.add_noise_for_snr, SignalToNoiseRatio.forward)
-    ck.bound("inputs", f"n = {tier(2, 3)} samples real and complex, |x| <= {XMAX}; noise power symbolic in (1e-3, 1e3] or grid values; SNR grid in [-20, 40] dB; Gaussian / uniform draws symbolic")
+    ck.bound("inputs", f"n = {tier(2, 5)} samples real and complex, |x| <= {XMAX}; noise power symbolic in (1e-3, 1e3] or grid values; SNR grid in [-20, 40] dB; Gaussian / uniform draws symbolic")
     ck.stub("randn_like / rand -> fresh symbolic reals (uniform ones in [0,1)); the Laplacian check rewinds the stubbed generator so that two channel objects see the same draws (same-seed relation)")
     ck.assume("unit laws of torch's generators and Var(sign(u-1/2) * -log(1-2|u-1/2|)) = 2 are trusted lemmas; empirical power of >= 10^6 draws is outside the claim; log/log10/10^x are uninterpreted functions with inverse/monotonicity axioms (those clauses are stretch)")
     ck.assume("float32 conversion of the computed noise power (result.to(float32)) is outside the reals model: scale obligations carry a 1e-5 relative margin")
